@@ -1,4 +1,4 @@
-import PyYetiVerif.Lemmas.UsetTran
+import PyYetiVerif.Lemmas.UsetTranAux
 /-!
 C18, matrix routines on the set vectors, second part: `n2p.formulvs` (the chain of per-level transformations),
 `n2p.formdrm`, `n2p.addulvs` (models in `Model/UsetTran.lean`).
@@ -276,53 +276,6 @@ theorem formdrm_same_se (mk : Masks) (d : NasT α) (ulvs : Option (List (Nat × 
 
 /-! ## addulvs -/
 
-theorem find?_setD_self {β : Type} (l : List (Nat × β)) (k : Nat) (v : β) :
-    (setD l k v).find? (fun p => p.1 = k) = some (k, v) := by
-  unfold setD
-  split
-  · rename_i hany
-    induction l with
-    | nil => simp at hany
-    | cons p t ih =>
-        rw [List.map_cons]
-        by_cases hp : p.1 = k
-        · simp [hp]
-        · have : t.any (fun p => decide (p.1 = k)) = true := by
-            simpa [hp] using hany
-          rw [if_neg hp, List.find?_cons_of_neg (by simpa using hp)]
-          exact ih this
-  · rename_i hany
-    rw [List.find?_append]
-    have : l.find? (fun p => decide (p.1 = k)) = none := by
-      rw [List.find?_eq_none]
-      intro p hp hpk
-      exact hany (List.any_eq_true.mpr ⟨p, hp, hpk⟩)
-    simp [this]
-
-theorem find?_setD_other {β : Type} (l : List (Nat × β)) (k k' : Nat) (v : β) (h : k' ≠ k) :
-    (setD l k v).find? (fun p => p.1 = k') = l.find? (fun p => p.1 = k') := by
-  unfold setD
-  split
-  · rename_i hany
-    clear hany
-    induction l with
-    | nil => rfl
-    | cons p t ih =>
-        rw [List.map_cons]
-        by_cases hp : p.1 = k
-        · have hp' : ¬ p.1 = k' := fun he => h (he.symm.trans hp)
-          rw [if_pos hp, List.find?_cons_of_neg (by simpa using h.symm),
-            List.find?_cons_of_neg (by simpa using hp')]
-          exact ih
-        · rw [if_neg hp]
-          by_cases hp' : p.1 = k'
-          · simp [hp']
-          · rw [List.find?_cons_of_neg (by simpa using hp'), List.find?_cons_of_neg (by simpa using hp')]
-            exact ih
-  · rw [List.find?_append]
-    have : [(k, v)].find? (fun p => decide (p.1 = k')) = none := by simp [h.symm]
-    rw [this, Option.or_none]
-
 /-- **`addulvs` is consistent with `formulvs`**: after `addulvs(nas, *ses, **kwargs)` every listed SE has an entry
 in `nas["ulvs"]`, and the entry is what `formulvs(nas, se, **kwargs)` computes without the shortcut - or, with
 `shortcut=True` (and `sedn == 0`, `gset=False`), the entry that was already stored for that SE before the call. -/
@@ -406,4 +359,65 @@ theorem addulvs_consistent (mk : Masks) (d : NasT α) (ulvs : Option (List (Nat 
   exact (fold ses init l hinv0 h).2
 
 end ulvs
+/-! ## non-vacuity: SE 10 (a-set: scalar points 1, 2) upstream of the residual (rows 5, 6, 7; `phg` given) -/
+
+section examples
+open PyYetiVerif.Generated.UsetMask
+set_option linter.unusedSimpArgs false
+
+def exKey2 (i d : Nat) : Nat := i * 10 + d
+def exMasks2 : Masks := Masks.ofTable mask
+def exNasT : NasT Int where
+  nas := { selist := [(10, 0), (0, 0)],
+           uset := [(10, [(1, 0, 2097154), (2, 0, 4194304)]), (0, [(5, 0, 2097154), (6, 0, 4), (7, 0, 2097154)])],
+           dnids := [(10, [7, 5])], maps := [(10, [])], upids := [] }
+  got := []
+  goq := []
+  gm := []
+  pha := []
+  phg := [(0, ⟨[[2], [3], [5]], 1⟩)]
+
+theorem exNasT_ulvs : formulvs exKey2 exMasks2 exNasT none 10 0 true true false = .ok (.mat ⟨[[2], [5]], 1⟩) := by
+  simp [formulvs, ulvsLoop, ulvsLevel, formtran, formtran0, upasetpv, upMask, idMask, applyMaps, findse, lookupD, exNasT,
+    dotU, mkdofpv, mksetpv, expanddof, expanddof2, expandRow, digits, digitsRev, mkdofpvKeys, argsort,
+    lookup, searchsortedLeft, key, List.mergeSort, List.zipIdx, List.MergeSort.Internal.splitInTwo,
+    exMasks2, Masks.ofTable, mask, v_p, v_g, v_n, v_f, v_a, v_q, v_r, v_b, v_c, v_o, v_s, v_m, v_e, v_l, v_t,
+    inSet, liftE, positions, takeIdx, rowsAt, bind, Except.bind, pure, List.mapM_cons, List.mapM_nil]
+
+/-- `formulvs` returns a matrix (third case of `formulvs_chain_is_product`), `1.0` for `seup == sedn`, and the stored
+matrix with the shortcut -/
+example : formulvs exKey2 exMasks2 exNasT none 10 0 true true false = .ok (.mat ⟨[[2], [5]], 1⟩) ∧
+    formulvs exKey2 exMasks2 exNasT none 10 10 true true false = .ok .one ∧
+    formulvs exKey2 exMasks2 exNasT (some [(10, .mat ⟨[[7]], 1⟩)]) 10 0 true true false = .ok (.mat ⟨[[7]], 1⟩) :=
+  ⟨exNasT_ulvs, by simp [formulvs, findse, positions, exNasT, liftE, bind, Except.bind],
+    by simp [formulvs, findse, positions, exNasT, liftE, bind, Except.bind]⟩
+
+/-- `addulvs(nas, 10)` stores that matrix -/
+example : addulvs exKey2 exMasks2 exNasT none [10] 0 true true false = .ok [(10, .mat ⟨[[2], [5]], 1⟩)] := by
+  have h : formulvs exKey2 exMasks2 exNasT (some []) 10 0 true true false = .ok (.mat ⟨[[2], [5]], 1⟩) := by
+    rcases formulvs_cases exKey2 exMasks2 exNasT (some []) 10 0 true true false with h | ⟨p, ⟨_, _, _, l, hl, hf⟩, _⟩
+    · rw [h, ← formulvs_noshortcut exKey2 exMasks2 exNasT none]
+      have := formulvs_cases exKey2 exMasks2 exNasT none 10 0 true true false
+      rcases this with h' | ⟨p, ⟨_, _, _, l, hl, _⟩, _⟩
+      · rw [← formulvs_noshortcut exKey2 exMasks2 exNasT none, ← h']; exact exNasT_ulvs
+      · cases hl
+    · simp only [Option.some.injEq] at hl
+      subst hl
+      cases hf
+  simp [addulvs, h, setD, bind, Except.bind, pure, Except.pure]
+
+/-- `formdrm` for the a-set DOF `(2, 0)` of SE 10: its `formtran` row `[0, 1]` times ULVS -/
+example : ∃ drm, formdrm exKey2 exMasks2 exNasT none 10 (.rows [(2, 0)]) 0 false = .ok (drm, [(2, 0)]) := by
+  refine ⟨⟨[[5]], 1⟩, ?_⟩
+  unfold formdrm
+  rw [exNasT_ulvs]
+  simp [formtran, formtranUp, lookupD, exNasT, mkdofpv, mksetpv, expanddof, expanddof2, expandRow, digits, digitsRev,
+    mkdofpvKeys, argsort, lookup, searchsortedLeft, key, List.mergeSort, List.zipIdx, List.MergeSort.Internal.splitInTwo,
+    exMasks2, Masks.ofTable, mask, v_p, v_g, v_n, v_f, v_a, v_q, v_r, v_b, v_c, v_o, v_s, v_m, v_e, v_l, v_t,
+    inSet, liftE, setPos, positions, takeIdx, unitRow, dot, rowComb, addRow, smulRow, zeroRow, anyFrom,
+    bind, Except.bind, pure, Except.pure, Except.map, List.mapM_cons, List.mapM_nil]
+  decide
+
+end examples
+
 end PyYetiVerif.C18
